@@ -343,6 +343,18 @@ func runC01(t gen.Tier, r *gen.Rng, rep *Reporter) {
 	rep.Sample("M <generated coherent spec> pack <in-domain content> => unpack into a fresh message: same present ids, canonical values equal, consumed = produced, re-pack identical")
 }
 
+func hasEmptyComposite(v *T) bool {
+	if v.Name == "c" && len(v.Kids) == 0 {
+		return true
+	}
+	for _, k := range v.Kids {
+		if hasEmptyComposite(k) {
+			return true
+		}
+	}
+	return false
+}
+
 func checkPackUnpackAfterHistory(rep *Reporter, c *hcase) {
 	line := c.line(c.ops, "")
 	safely(rep, line, func() {
@@ -356,8 +368,11 @@ func checkPackUnpackAfterHistory(rep *Reporter, c *hcase) {
 			return
 		}
 		held, ok := impl.ParseTree(s.V)
-		if !ok || len(held.Kids) == 0 || held.Kids[0].Name == "-" {
-			return // a message without an MTI is outside the content domain (DESIGN §2)
+		if !ok || len(held.Kids) == 0 || held.Kids[0].Name == "-" || hasEmptyComposite(held) {
+			// a message without an MTI, or holding a composite none of whose subfields is set (a history can
+			// leave one behind: Marshal of an empty struct, unset of every subfield), is outside the content
+			// domain (DESIGN §2): a positional composite has no encoding for "no subfield"
+			return
 		}
 		packed, _ := impl.UnHex(strings.TrimPrefix(s.P, "ok:"))
 		rep.Case(line + " #roundtrip")
@@ -368,7 +383,34 @@ func checkPackUnpackAfterHistory(rep *Reporter, c *hcase) {
 			return
 		}
 		got := impl.MsgTree(fresh)
-		if same, d := sameMsg(canonMsg(specT, got), canonMsg(specT, held)); !same {
+		// compared: the set of present data elements and the values of the primitive ones. What a history
+		// leaves inside a composite need not be in the value domain (a positional composite with a gap, or
+		// whose last variable subfield is empty, …: DESIGN §2); composites are compared by the field-level
+		// and re-use checks on generated in-domain values.
+		flat := func(m *T) *T {
+			out := impl.N(m.Name)
+			for _, k := range m.Kids {
+				if k.Name == "f" && len(k.Kids) == 2 && k.Kids[1].Name == "c" {
+					out.Kids = append(out.Kids, impl.N("f", k.Kids[0], impl.N("s", impl.A("-"))))
+				} else {
+					out.Kids = append(out.Kids, k)
+				}
+			}
+			return out
+		}
+		flatSpec := func(st *T) *T {
+			out := impl.N(st.Name)
+			for _, k := range st.Kids {
+				if k.Name == "f" && len(k.Kids) == 2 && k.Kids[1].Name == "c" {
+					out.Kids = append(out.Kids, impl.N("f", k.Kids[0], impl.N("p", impl.A("s"), impl.A("0"), impl.A("ascii"), impl.A("ascii.3"), impl.A("nil"), impl.A("d"))))
+				} else {
+					out.Kids = append(out.Kids, k)
+				}
+			}
+			return out
+		}
+		fs := flatSpec(specT)
+		if same, d := sameMsg(canonMsg(fs, flat(got)), canonMsg(fs, flat(held))); !same {
 			rep.Viol("after a history of writes to one message, Pack encodes something other than what the message holds", line,
 				fmt.Sprintf("%s | the message reports %s, Pack gave %x, which unpacks to %s", d, held.String(), packed, got.String()))
 		}
